@@ -23,7 +23,14 @@
 (* decided by the spec.                                                      *)
 EXTENDS RoundTrip, Json, IOUtils
 
+CONSTANT StrictEmptyForm    \* FALSE: named deviation EmptyFormCallRefused (open finding candidate, see notes/C04.md round 5) - a call of an
+                            \* operation consuming a form media type that supplies NO form field and no file is outside the guarantee:
+                            \* the client then sends neither body nor Content-Type and the server's formData binder answers 415
+
 VARIABLES l, st, skipping, fails, cs
+
+EmptyFormCall(e) == /\ e.media \in {"urlencoded", "multipart"}
+                    /\ \A i \in 1..Len(e.supplied) : e.supplied[i].loc \notin {"urlform", "multiform", "file"}
 
 \* the declared calls: listed (steps), or - concurrent batches - batch.count calls of batch.op, call i with values of its own
 \* (case "race", appended by the runner: the race detector observed the whole run; its report count)
@@ -39,7 +46,7 @@ Obs(e)  == [err |-> e.err, handled_op |-> e.handled_op, invoked |-> e.invoked, r
 XAllowed(s, e) ==
   CASE e.ev = "exchange" -> /\ e.setup
                             /\ Declared(s, e)                                        \* the exchange is the declared step
-                            /\ ExchangeOK(Call(e), Obs(e))
+                            /\ (EmptyFormCall(e) /\ ~StrictEmptyForm) \/ ExchangeOK(Call(e), Obs(e))
     \* a call of a long concurrent batch, recorded by the projection of its exchange to what identifies it: every value it
     \* supplied ends in its tag (sent); handler invocations are filed under the call whose tag their values carry; the handler
     \* echoes the tag of the call it was invoked for in a response header.  C04: that operation's handler is invoked, once,
